@@ -672,6 +672,26 @@ func fuzzDecode(f *testing.F) {
 			f.Add(append(append([]byte{}, hdr...), 0x92, 0x01, 0x00))
 		}
 	}
+	// a few valid encodings per type, drawn from the stream generator with fixed example seeds
+	sctx := newCtx(nil, "C06")
+	for i, t := range types {
+		if i%3 != 0 {
+			continue
+		}
+		t := t
+		g := rapid.Custom(func(rt *rapid.T) []byte {
+			cfg := sctx.streamCfg(true, false)
+			b := cfg.GenStream(rt, t.Desc, 0)
+			if b == nil {
+				b = []byte{}
+			}
+			rapid.Bool().Draw(rt, "pad")
+			return b
+		})
+		for k := 0; k < 2; k++ {
+			f.Add(append([]byte{byte(i >> 8), byte(i)}, g.Example(k+1)...))
+		}
+	}
 	ctx := newCtx(nil, "C06")
 	f.Fuzz(func(t *testing.T, data []byte) {
 		if len(data) > 1<<16 {
